@@ -6996,6 +6996,462 @@ let rec bufread_all_e b amts acc =
      | EErr (e, b') -> ((acc, (Failed e)), b')
      | EIntr b' -> bufread_all_e b' rest acc)
 
+type sev2 =
+| S2Data of bytes
+| S2Intr
+| S2Fail
+
+(** val strip2 : sev2 list -> bytes list **)
+
+let rec strip2 = function
+| [] -> []
+| s :: r -> (match s with
+             | S2Data g -> g :: (strip2 r)
+             | _ -> strip2 r)
+
+(** val count_nd : sev2 list -> nat **)
+
+let rec count_nd = function
+| [] -> O
+| s :: r -> (match s with
+             | S2Data _ -> count_nd r
+             | _ -> S (count_nd r))
+
+type 's fres =
+| FOk of bytes * 's
+| FErr of ioerr * 's
+| FIntr of 's
+| FFail of 's
+
+(** val fmap : ('a1 -> 'a2) -> 'a1 fres -> 'a2 fres **)
+
+let fmap f = function
+| FOk (o, s) -> FOk (o, (f s))
+| FErr (e, s) -> FErr (e, (f s))
+| FIntr s -> FIntr (f s)
+| FFail s -> FFail (f s)
+
+type src_f = { bbuf_f : bytes; lo_f : bytes; evs_f : sev2 list;
+               sfuel_f : nat; stake_f : n option }
+
+(** val mk_src_f : bytes -> sev2 list -> src_f **)
+
+let mk_src_f leftover evs =
+  { bbuf_f = []; lo_f = leftover; evs_f = evs; sfuel_f =
+    (add
+      (add
+        (mul (S (S (S (S O)))) (S
+          (add (length leftover) (length (concat (strip2 evs)))))) (S (S (S
+        (S (S (S (S (S O))))))))) (count_nd evs)); stake_f = None }
+
+(** val mk_src_take_f : bytes -> sev2 list -> n -> src_f **)
+
+let mk_src_take_f leftover evs limit =
+  { bbuf_f = []; lo_f = leftover; evs_f = evs; sfuel_f =
+    (add
+      (add
+        (mul (S (S (S (S O)))) (S
+          (add (length leftover) (length (concat (strip2 evs)))))) (S (S (S
+        (S (S (S (S (S O))))))))) (count_nd evs)); stake_f = (Some limit) }
+
+(** val stream_read_f : n -> sev2 list -> sev2 list fres **)
+
+let rec stream_read_f k = function
+| [] -> FOk ([], [])
+| s :: rest ->
+  (match s with
+   | S2Data g ->
+     (match g with
+      | [] -> stream_read_f k rest
+      | _ :: _ ->
+        let out = firstnN k g in
+        (match skipnN k g with
+         | [] -> FOk (out, rest)
+         | b :: l -> FOk (out, ((S2Data (b :: l)) :: rest))))
+   | S2Intr -> FIntr rest
+   | S2Fail -> FFail rest)
+
+(** val inner_read_f : n -> bytes -> sev2 list -> (bytes * sev2 list) fres **)
+
+let inner_read_f k l ev0 =
+  match l with
+  | [] -> fmap (fun ev' -> ([], ev')) (stream_read_f k ev0)
+  | _ :: _ -> FOk ((firstnN k l), ((skipnN k l), ev0))
+
+(** val take_read_f : n -> src_f -> ((bytes * sev2 list) * n option) fres **)
+
+let take_read_f k s =
+  match s.stake_f with
+  | Some lim ->
+    if N.eqb lim N0
+    then FOk ([], ((s.lo_f, s.evs_f), (Some N0)))
+    else (match inner_read_f (N.min k lim) s.lo_f s.evs_f with
+          | FOk (out, t) -> FOk (out, (t, (Some (N.sub lim (lenN out)))))
+          | FErr (e, t) -> FErr (e, (t, (Some lim)))
+          | FIntr t -> FIntr (t, (Some lim))
+          | FFail t -> FFail (t, (Some lim)))
+  | None -> fmap (fun t -> (t, None)) (inner_read_f k s.lo_f s.evs_f)
+
+(** val with_tail_f :
+    src_f -> bytes -> ((bytes * sev2 list) * n option) -> src_f **)
+
+let with_tail_f s b = function
+| (p, tk) ->
+  let (l', ev') = p in
+  { bbuf_f = b; lo_f = l'; evs_f = ev'; sfuel_f = s.sfuel_f; stake_f = tk }
+
+(** val fill_buf_f : src_f -> src_f fres **)
+
+let fill_buf_f s =
+  match s.bbuf_f with
+  | [] ->
+    (match take_read_f bUF_SIZE s with
+     | FOk (out, t) -> FOk (out, (with_tail_f s out t))
+     | FErr (e, t) -> FErr (e, (with_tail_f s [] t))
+     | FIntr t -> FIntr (with_tail_f s [] t)
+     | FFail t -> FFail (with_tail_f s [] t))
+  | _ :: _ -> FOk (s.bbuf_f, s)
+
+(** val consume_f : n -> src_f -> src_f **)
+
+let consume_f n0 s =
+  { bbuf_f = (skipnN n0 s.bbuf_f); lo_f = s.lo_f; evs_f = s.evs_f; sfuel_f =
+    s.sfuel_f; stake_f = s.stake_f }
+
+(** val buf_read_f : n -> src_f -> src_f fres **)
+
+let buf_read_f k s =
+  match s.bbuf_f with
+  | [] ->
+    if N.leb bUF_SIZE k
+    then (match take_read_f k s with
+          | FOk (out, t) -> FOk (out, (with_tail_f s [] t))
+          | FErr (e, t) -> FErr (e, (with_tail_f s [] t))
+          | FIntr t -> FIntr (with_tail_f s [] t)
+          | FFail t -> FFail (with_tail_f s [] t))
+    else (match fill_buf_f s with
+          | FOk (_, s') -> FOk ((firstnN k s'.bbuf_f), (consume_f k s'))
+          | x -> x)
+  | _ :: _ -> FOk ((firstnN k s.bbuf_f), (consume_f k s))
+
+(** val read_exact_loop_f : nat -> n -> src_f -> bytes -> src_f fres **)
+
+let rec read_exact_loop_f fuel n0 s acc =
+  if N.eqb n0 N0
+  then FOk (acc, s)
+  else (match fuel with
+        | O -> FErr (EUnexpectedEof, s)
+        | S fuel' ->
+          (match buf_read_f n0 s with
+           | FOk (out, s') ->
+             (match out with
+              | [] -> FErr (EUnexpectedEof, s')
+              | _ :: _ ->
+                read_exact_loop_f fuel' (N.sub n0 (lenN out)) s' (app acc out))
+           | FIntr s' -> read_exact_loop_f fuel' n0 s' acc
+           | x -> x))
+
+(** val read_exact_f : n -> src_f -> src_f fres **)
+
+let read_exact_f n0 s =
+  if N.leb n0 (lenN (firstnN n0 s.bbuf_f))
+  then FOk ((firstnN n0 s.bbuf_f), (consume_f n0 s))
+  else read_exact_loop_f (add (N.to_nat n0) (count_nd s.evs_f)) n0 s []
+
+(** val read_until_lf_f : nat -> src_f -> bytes -> src_f fres **)
+
+let rec read_until_lf_f fuel s acc =
+  match fuel with
+  | O -> FOk (acc, s)
+  | S fuel' ->
+    (match fill_buf_f s with
+     | FOk (avail, s1) ->
+       (match find_index (eqb0 X0a) avail with
+        | Some i ->
+          FOk ((app acc (firstn (S i) avail)),
+            (consume_f (N.of_nat (S i)) s1))
+        | None ->
+          (match avail with
+           | [] -> FOk (acc, s1)
+           | _ :: _ ->
+             read_until_lf_f fuel' (consume_f (lenN avail) s1) (app acc avail)))
+     | FIntr s1 -> read_until_lf_f fuel' s1 acc
+     | x -> x)
+
+(** val read_line_f : src_f -> src_f fres **)
+
+let read_line_f s =
+  match read_until_lf_f s.sfuel_f s [] with
+  | FOk (line, s') ->
+    if utf8_valid line then FOk (line, s') else FErr (EInvalidData, s')
+  | x -> x
+
+type fixed_f = { f_src_f : src_f; f_remaining_f : n }
+
+(** val fixed_read_f : n -> fixed_f -> fixed_f fres **)
+
+let fixed_read_f k r =
+  if (||) (N.eqb r.f_remaining_f N0) (N.eqb k N0)
+  then FOk ([], r)
+  else let to_read = N.min r.f_remaining_f k in
+       let back = fun s' -> { f_src_f = s'; f_remaining_f = r.f_remaining_f }
+       in
+       (match buf_read_f to_read r.f_src_f with
+        | FOk (out, s') ->
+          (match out with
+           | [] -> FErr (EUnexpectedEof, (back s'))
+           | _ :: _ ->
+             FOk (out, { f_src_f = s'; f_remaining_f =
+               (N.sub r.f_remaining_f (lenN out)) }))
+        | FErr (e, s') -> FErr (e, (back s'))
+        | FIntr s' -> FIntr (back s')
+        | FFail s' -> FFail (back s'))
+
+(** val fixed_fill_buf_f : fixed_f -> fixed_f fres **)
+
+let fixed_fill_buf_f r =
+  if N.eqb r.f_remaining_f N0
+  then FOk ([], r)
+  else let back = fun s' -> { f_src_f = s'; f_remaining_f = r.f_remaining_f }
+       in
+       (match fill_buf_f r.f_src_f with
+        | FOk (b, s') ->
+          (match b with
+           | [] -> FErr (EUnexpectedEof, (back s'))
+           | _ :: _ -> FOk ((firstnN r.f_remaining_f b), (back s')))
+        | FErr (e, s') -> FErr (e, (back s'))
+        | FIntr s' -> FIntr (back s')
+        | FFail s' -> FFail (back s'))
+
+(** val fixed_consume_f : n -> fixed_f -> fixed_f **)
+
+let fixed_consume_f amt r =
+  { f_src_f = (consume_f amt r.f_src_f); f_remaining_f =
+    (N.sub r.f_remaining_f amt) }
+
+type chunked_f = { c_src_f : src_f; c_state_f : cstate; c_remaining_f : n }
+
+(** val read_chunk_size_f : chunked_f -> chunked_f fres **)
+
+let read_chunk_size_f c =
+  let back = fun s' -> { c_src_f = s'; c_state_f = c.c_state_f;
+    c_remaining_f = c.c_remaining_f }
+  in
+  (match read_line_f c.c_src_f with
+   | FOk (line, s') ->
+     let st = fun e -> FErr (e, (back s')) in
+     (match line with
+      | [] -> st EUnexpectedEof
+      | _ :: _ ->
+        (match strip_suffix_byte X0a line with
+         | Some l1 ->
+           let l2 =
+             match strip_suffix_byte X0d l1 with
+             | Some x -> x
+             | None -> l1
+           in
+           let hex = match split_on X3b l2 with
+                     | [] -> []
+                     | h :: _ -> h in
+           (match hex with
+            | [] -> st EInvalidData
+            | _ :: _ ->
+              if forallb is_hexdigit hex
+              then (match parse_hex N0 hex with
+                    | Some n0 ->
+                      FOk ([], { c_src_f = s'; c_state_f =
+                        (if N.eqb n0 N0 then CTrailer else CData);
+                        c_remaining_f = n0 })
+                    | None -> st EInvalidData)
+              else st EInvalidData)
+         | None -> st EUnexpectedEof))
+   | FErr (e, s') -> FErr (e, (back s'))
+   | FIntr s' -> FIntr (back s')
+   | FFail s' -> FFail (back s'))
+
+(** val trailer_loop_f : nat -> src_f -> src_f fres **)
+
+let rec trailer_loop_f fuel s =
+  match fuel with
+  | O -> FErr (EUnexpectedEof, s)
+  | S fuel' ->
+    (match read_line_f s with
+     | FOk (line, s') ->
+       (match line with
+        | [] -> FErr (EUnexpectedEof, s')
+        | _ :: _ ->
+          if (||) (bytes_eqb line (X0d :: (X0a :: [])))
+               (bytes_eqb line (X0a :: []))
+          then FOk ([], s')
+          else trailer_loop_f fuel' s')
+     | x -> x)
+
+(** val advance_f : nat -> chunked_f -> chunked_f fres **)
+
+let rec advance_f fuel c =
+  match fuel with
+  | O -> FErr (EInvalidData, c)
+  | S fuel' ->
+    (match c.c_state_f with
+     | CSize ->
+       (match read_chunk_size_f c with
+        | FOk (_, c') -> advance_f fuel' c'
+        | x -> x)
+     | CData ->
+       if N.eqb c.c_remaining_f N0
+       then advance_f fuel' { c_src_f = c.c_src_f; c_state_f = CCrlf;
+              c_remaining_f = N0 }
+       else FOk ([], c)
+     | CCrlf ->
+       let back = fun s' -> { c_src_f = s'; c_state_f = CCrlf;
+         c_remaining_f = c.c_remaining_f }
+       in
+       (match read_exact_f (Npos (XO XH)) c.c_src_f with
+        | FOk (crlf, s') ->
+          if bytes_eqb crlf (X0d :: (X0a :: []))
+          then advance_f fuel' { c_src_f = s'; c_state_f = CSize;
+                 c_remaining_f = c.c_remaining_f }
+          else FErr (EInvalidData, (back s'))
+        | FErr (e, s') -> FErr (e, (back s'))
+        | FIntr s' -> FIntr (back s')
+        | FFail s' -> FFail (back s'))
+     | CTrailer ->
+       let back = fun s' -> { c_src_f = s'; c_state_f = CTrailer;
+         c_remaining_f = c.c_remaining_f }
+       in
+       (match trailer_loop_f c.c_src_f.sfuel_f c.c_src_f with
+        | FOk (_, s') ->
+          advance_f fuel' { c_src_f = s'; c_state_f = CDone; c_remaining_f =
+            c.c_remaining_f }
+        | FErr (e, s') -> FErr (e, (back s'))
+        | FIntr s' -> FIntr (back s')
+        | FFail s' -> FFail (back s'))
+     | CDone -> FOk ([], c))
+
+(** val adv_fuel_f : chunked_f -> nat **)
+
+let adv_fuel_f c =
+  c.c_src_f.sfuel_f
+
+(** val chunked_read_loop_f :
+    nat -> n -> chunked_f -> bytes -> chunked_f fres **)
+
+let rec chunked_read_loop_f fuel k c written =
+  match fuel with
+  | O -> FOk (written, c)
+  | S fuel' ->
+    (match advance_f (adv_fuel_f c) c with
+     | FOk (_, c1) ->
+       (match c1.c_state_f with
+        | CDone -> FOk (written, c1)
+        | _ ->
+          if N.eqb k N0
+          then FOk (written, c1)
+          else let to_read = N.min c1.c_remaining_f k in
+               let back = fun s' -> { c_src_f = s'; c_state_f = c1.c_state_f;
+                 c_remaining_f = c1.c_remaining_f }
+               in
+               (match buf_read_f to_read c1.c_src_f with
+                | FOk (out, s') ->
+                  (match out with
+                   | [] -> FErr (EUnexpectedEof, (back s'))
+                   | _ :: _ ->
+                     let n0 = lenN out in
+                     let c2 = { c_src_f = s'; c_state_f = c1.c_state_f;
+                       c_remaining_f = (N.sub c1.c_remaining_f n0) }
+                     in
+                     if (||) (N.eqb c2.c_remaining_f N0)
+                          (N.eqb (N.sub k n0) N0)
+                     then FOk ((app written out), c2)
+                     else chunked_read_loop_f fuel' (N.sub k n0) c2
+                            (app written out))
+                | FErr (e, s') ->
+                  (match written with
+                   | [] -> FErr (e, (back s'))
+                   | _ :: _ -> FOk (written, (back s')))
+                | FIntr s' ->
+                  (match written with
+                   | [] -> FIntr (back s')
+                   | _ :: _ -> FOk (written, (back s')))
+                | FFail s' ->
+                  (match written with
+                   | [] -> FFail (back s')
+                   | _ :: _ -> FOk (written, (back s')))))
+     | x -> x)
+
+(** val chunked_read_f : n -> chunked_f -> chunked_f fres **)
+
+let chunked_read_f k c =
+  chunked_read_loop_f c.c_src_f.sfuel_f k c []
+
+(** val chunked_fill_buf_f : chunked_f -> chunked_f fres **)
+
+let chunked_fill_buf_f c =
+  match advance_f (adv_fuel_f c) c with
+  | FOk (_, c1) ->
+    (match c1.c_state_f with
+     | CDone -> FOk ([], c1)
+     | _ ->
+       let back = fun s' -> { c_src_f = s'; c_state_f = c1.c_state_f;
+         c_remaining_f = c1.c_remaining_f }
+       in
+       (match fill_buf_f c1.c_src_f with
+        | FOk (b, s') ->
+          (match b with
+           | [] -> FErr (EUnexpectedEof, (back s'))
+           | _ :: _ -> FOk ((firstnN c1.c_remaining_f b), (back s')))
+        | FErr (e, s') -> FErr (e, (back s'))
+        | FIntr s' -> FIntr (back s')
+        | FFail s' -> FFail (back s')))
+  | x -> x
+
+(** val chunked_consume_f : n -> chunked_f -> chunked_f **)
+
+let chunked_consume_f amt c =
+  { c_src_f = (consume_f amt c.c_src_f); c_state_f = c.c_state_f;
+    c_remaining_f = (N.sub c.c_remaining_f amt) }
+
+type body_f =
+| BFixed_f of fixed_f
+| BChunked_f of chunked_f
+| BEof_f of src_f
+| BEmpty_f of src_f
+
+(** val new_fixed_f : bytes -> sev2 list -> n -> body_f **)
+
+let new_fixed_f leftover evs len =
+  BFixed_f { f_src_f = (mk_src_take_f leftover evs len); f_remaining_f = len }
+
+(** val new_chunked_f : bytes -> sev2 list -> body_f **)
+
+let new_chunked_f leftover evs =
+  BChunked_f { c_src_f = (mk_src_f leftover evs); c_state_f = CSize;
+    c_remaining_f = N0 }
+
+(** val body_read_f : n -> body_f -> body_f fres **)
+
+let body_read_f k b = match b with
+| BFixed_f r -> fmap (fun x -> BFixed_f x) (fixed_read_f k r)
+| BChunked_f c -> fmap (fun x -> BChunked_f x) (chunked_read_f k c)
+| BEof_f s -> fmap (fun x -> BEof_f x) (buf_read_f k s)
+| BEmpty_f _ -> FOk ([], b)
+
+(** val body_fill_buf_f : body_f -> body_f fres **)
+
+let body_fill_buf_f b = match b with
+| BFixed_f r -> fmap (fun x -> BFixed_f x) (fixed_fill_buf_f r)
+| BChunked_f c -> fmap (fun x -> BChunked_f x) (chunked_fill_buf_f c)
+| BEof_f s -> fmap (fun x -> BEof_f x) (fill_buf_f s)
+| BEmpty_f _ -> FOk ([], b)
+
+(** val body_consume_f : n -> body_f -> body_f **)
+
+let body_consume_f amt b = match b with
+| BFixed_f r -> BFixed_f (fixed_consume_f amt r)
+| BChunked_f c -> BChunked_f (chunked_consume_f amt c)
+| BEof_f s -> BEof_f (consume_f amt s)
+| BEmpty_f _ -> b
+
 (** val hexdig : byte -> bool **)
 
 let hexdig = function
